@@ -155,9 +155,15 @@ def runMki (f : List String) (got : String) : MkResult :=
           | r => (resText (r.bind fun _ => .ok "") ++ s!" {recEcho rec}", ["mki-err"])
       | _ => (s!"err {recEcho rec}", ["mki-err"])
     let shipped := shippedIntSigners.contains (sigBase op.signer)
+    -- HopLimit is one byte on the wire: a configured value above 255 cannot be carried; the builder has to refuse
+    -- it (F-03h) — cutting it down to its low byte silently sends ANOTHER hop limit (256 leaves as 0)
+    let hlBad : Bool := match op.hl with | some h => decide (h > 255) | none => false
+    let expected := if hlBad then got else expected
     let spec : List SpecFail :=
+      (if hlBad ∧ implOk then
+        [⟨"fields-survive", "hoplimit-out-of-range", s!"MakeInterest built a packet for HopLimit {op.hl.getD 0}: one byte on the wire, the decoded packet carries {op.hl.getD 0 % 256}"⟩] else []) ++
       (if isCrash got then [⟨"no-panic", "mki", s!"MakeInterest crashed: {(tk got 200)}"⟩] else []) ++
-      (if !implOk ∧ !isCrash got ∧ shipped ∧ need then
+      (if !implOk ∧ !isCrash got ∧ shipped ∧ need ∧ !hlBad then
         [⟨"builds", "interest-" ++ op.signer, "MakeInterest refused a shipped signer on valid input"⟩] else []) ++
       (match implW with
        | some w => if implOk ∧ !Spec.wfInterest w then
